@@ -130,9 +130,14 @@ fn szx_chunk_bytes(r: &mut Rng, c: &Value, m128: bool) -> Vec<u8> {
         }
         "SPCR" => (*b"SPCR", vec![[1u8, 8, 255, 7][var as usize], [0u8, 0x27, 0xFF, 0x10][var as usize], 0, [1u8, 0xFF, 0, 0x1F][var as usize], 0, 0, 0, 0]),
         "RAMP" => {
-            let page = [5u8, 8, 255, 2, 3, 7][var as usize];
+            let page = [5u8, 8, 255, 2, 3, 7, 0, 2, 5][var as usize];
             let mut v = vec![];
             match var {
+                6 | 7 | 8 => {
+                    // compressed page whose stream inflates to more than a page / more than 64 KiB / 16 MiB
+                    v.extend(1u16.to_le_bytes()); v.push(page);
+                    v.extend(miniz_oxide::deflate::compress_to_vec_zlib(&vec![0u8; [16385usize, 70_000, 16 << 20][var as usize - 6]], 6));
+                }
                 0 | 1 | 2 | 4 | 5 => { v.extend(0u16.to_le_bytes()); v.push(page); v.extend(vec![0xAAu8; 16384]); }
                 _ => {
                     // compressed page whose stream inflates to fewer than 16384 bytes
